@@ -280,7 +280,7 @@ pub fn run(repo: &Path, out: &Path) -> Result<(), String> {
     write_if_changed(&out.join("inventory.json"), &serde_json::to_string_pretty(&cur).unwrap());
 
     // compare with the committed expectation
-    let exp: serde_json::Value = fs::read_to_string("/verif/inventories/expected.json").ok().and_then(|t| serde_json::from_str(&t).ok()).unwrap_or(serde_json::json!({}));
+    let exp: serde_json::Value = fs::read_to_string(format!("{}/inventories/expected.json", std::env::var("VERIF_ROOT").unwrap_or_else(|_| "/verif".to_string()))).ok().and_then(|t| serde_json::from_str(&t).ok()).unwrap_or(serde_json::json!({}));
     let diff = |name: &str| -> (bool, String) {
         let tolist = |v: &serde_json::Value| -> Set<String> {
             match v {
